@@ -1673,6 +1673,72 @@ mod settings {
             }
         }
     }
+    // The documentation's own examples (rws.command_line, rws.variables, rws.config.toml in the working directory = the repository):
+    // every spelling they use must be one of the table, and running start-up with exactly these sources must give their values.
+    fn documented(h: &mut Hits) -> Vec<Scenario> {
+        let mut out = vec![];
+        let unq = |v: &str| v.trim().trim_matches('"').trim_matches('\'').to_string();
+        if let Ok(t) = std::fs::read_to_string("rws.command_line") {
+            for (ln, line) in t.lines().enumerate() {
+                if !line.starts_with("rws ") { continue; }
+                let mut s = Scenario { name: format!("rws.command_line line {}", ln + 1), env: vec![], file: None, file_vals: vec![], cli: vec![], cli_vals: vec![] };
+                for w in line.split_whitespace().skip(1) {
+                    s.cli.push(w.to_string());
+                    if let Some((p, v)) = w.split_once('=') {
+                        match T.iter().position(|t| t.1 == p || t.2 == p) {
+                            Some(i) => s.cli_vals.push((i, v.to_string())),
+                            None => h.hit("settings", "c12_documented_spelling", "CommandLineArgument::get_command_line_arg_list", &format!("rws.command_line:{}", ln + 1), &format!("the documented word {:?} is not a spelling of any setting", w)),
+                        }
+                    }
+                }
+                out.push(s);
+            }
+        }
+        if let Ok(t) = std::fs::read_to_string("rws.variables") {
+            let mut s = Scenario { name: "rws.variables".into(), env: vec![], file: None, file_vals: vec![], cli: vec![], cli_vals: vec![] };
+            for (ln, line) in t.lines().enumerate() {
+                if let Some(rest) = line.strip_prefix("export ") {
+                    if let Some((n, v)) = rest.split_once('=') {
+                        match T.iter().position(|t| t.0 == n) {
+                            Some(i) => s.env.push((i, unq(v))),
+                            None => h.hit("settings", "c12_documented_spelling", "Config", &format!("rws.variables:{}", ln + 1), &format!("the documented variable {:?} is not the variable of any setting", n)),
+                        }
+                    }
+                }
+            }
+            out.push(s);
+        }
+        if let Ok(t) = std::fs::read_to_string("rws.config.toml") {
+            let mut s = Scenario { name: "rws.config.toml".into(), env: vec![], file: Some(t.clone()), file_vals: vec![], cli: vec![], cli_vals: vec![] };
+            let mut table = String::new();
+            for (ln, line) in t.lines().enumerate() {
+                let l = line.split('#').next().unwrap_or("").trim();
+                if l.starts_with('[') { table = l.trim_matches(|c| c == '[' || c == ']').trim().to_string(); continue; }
+                if let Some((k, v)) = l.split_once('=') {
+                    let k = k.trim();
+                    let v = v.trim();
+                    // a TOML string, number, boolean, or array of strings (joined with commas)
+                    let val = if v.starts_with('[') { v.trim_matches(|c| c == '[' || c == ']').split(',').map(|x| unq(x)).filter(|x| !x.is_empty()).collect::<Vec<_>>().join(",") } else { unq(v) };
+                    match T.iter().position(|t| t.4 == table && t.5 == k) {
+                        Some(i) => s.file_vals.push((i, val)),
+                        None => h.hit("settings", "c12_documented_spelling", "read_config_file", &format!("rws.config.toml:{}", ln + 1), &format!("the documented key {:?} in table {:?} is not the key of any setting", k, table)),
+                    }
+                }
+            }
+            out.push(s);
+        }
+        // each documentation file names every setting
+        for (what, sc) in [("rws.command_line", out.iter().find(|s| s.name.starts_with("rws.command_line"))), ("rws.variables", out.iter().find(|s| s.name == "rws.variables")), ("rws.config.toml", out.iter().find(|s| s.name == "rws.config.toml"))] {
+            if let Some(sc) = sc {
+                for i in 0..11 {
+                    if !sc.env.iter().chain(sc.file_vals.iter()).chain(sc.cli_vals.iter()).any(|(j, _)| *j == i) {
+                        h.hit("settings", "c12_documented_spelling", "documentation", what, &format!("{} does not mention the setting {}", what, T[i].0));
+                    }
+                }
+            }
+        }
+        out
+    }
     // Server::setup itself: the listener and the pool are made from the effective values (file over environment here)
     pub fn check_setup(h: &mut Hits) {
         let s = Scenario { name: "Server::setup".into(), env: vec![(0, "127.0.0.3".into()), (2, "5".into())], file: Some("ip = '127.0.0.2'\nport = 0\nthread_count = 3\n".into()),
@@ -1700,13 +1766,17 @@ mod settings {
     pub fn search() -> bool {
         let mut h = Hits::new();
         for (n, s) in scenarios().iter().enumerate() { check(s, n, &mut h); }
+        let docs = documented(&mut h);
+        for (n, s) in docs.iter().enumerate() { check(s, 1000 + n, &mut h); }
         check_setup(&mut h);
         h.n > 0
     }
     pub fn replay(_case: &str, input: &str) -> bool {
         let mut h = Hits::new();
         if input == "setup" { check_setup(&mut h); return h.n > 0; }
+        if input.starts_with("rws.") { let _ = documented(&mut h); return h.n > 0; }
         let n: usize = input.parse().unwrap_or(0);
+        if n >= 1000 { let mut h0 = Hits::new(); let docs = documented(&mut h0); if n - 1000 < docs.len() { check(&docs[n - 1000], n, &mut h); } return h.n > 0; }
         let sc = scenarios();
         if n < sc.len() { check(&sc[n], n, &mut h); }
         h.n > 0
